@@ -48,13 +48,11 @@ Proof.
     unfold fwrap, lhs_paren, rhs_paren, parens.
     destruct (paren_lhs _ _ _ _), (paren_rhs _ _ _ _); cbn [fflat flat_map fflat1 app];
       rewrite ?app_nil_r, ?IHl, ?IHr; reflexivity.
-  - cbn [print_formula fitems]. change (fassoc (FQ q vs g)) with (Some ALeft).
-    cbn [fmt_unary is_left is_right tsp app]. rewrite !app_nil_r.
+  - cbn [print_formula fitems tsp app].
     cbn [fflat flat_map fflat1 fpre_toks]. fold (fflat (fwrap (q_paren (FQ q vs g) g) (fitems g) g)).
-    unfold fwrap, q_paren, un_paren, parens.
-    destruct (begins_with_variable _); cbn [orb].
-    + cbn [fflat flat_map fflat1 app]. rewrite app_nil_r. reflexivity.
-    + destruct (paren_unary _ _ _); cbn [fflat flat_map fflat1 app]; rewrite ?app_nil_r, ?IH; reflexivity.
+    rewrite <- orb_assoc. change (begins_with_variable (render (print_formula true g)) || (fmand g || (fprec (FQ q vs g) <? fprec g)%nat))
+      with (q_paren (FQ q vs g) g).
+    unfold fwrap, parens. destruct (q_paren _ _); cbn [fflat flat_map fflat1 app]; rewrite ?app_nil_r, ?IH; reflexivity.
 Qed.
 
 (* ---------- Pratt level ---------- *)
